@@ -280,30 +280,76 @@ def rule_d(ctx):
         # ... and it is None only when the kernel supplies no process: every `None` that can reach the field is assigned on the
         # has_process() == false branch (a None on the true branch drops a pid/uid the kernel did supply)
         bad_none = []
+        # true edges of the test(s) on has_process(cause)
+        from ..conds import switch_edges
+        true_tg = set()
+        for (b2, tgt, lab, exprs, t2) in switch_edges(ex):
+            for x in exprs:
+                x = deep_strip(x)
+                neg = False
+                if x[0] == "unop" and x[1] == "Not":
+                    neg = True; x = deep_strip(x[2])
+                if x[0] == "call" and x[1] == hb:
+                    val = int(lab[3:]) if lab.startswith("sw:") else None
+                    is_true = (val is not None and val != 0) or (val is None and [v for v, _ in t2["vals"]] == [0])
+                    if is_true != neg:
+                        true_tg.add(tgt)
+        exits = set(ex.exits())
 
-        def none_sites(local, at, depth=0):
-            for site in fl.reaching(local, at):
-                if site[0] == "entry" or depth > 6:
+        def defs_of(local):
+            """[(bb, is_none)] plain assignments to `local` and partial assignments to its `process` field"""
+            out = []
+            for b_, bl_ in enumerate(ex.blocks):
+                if bl_.get("dead"):
                     continue
-                sb, sidx = site
-                bl_ = ex.blocks[sb]
-                if sidx >= len(bl_["s"]):
-                    continue
-                st = bl_["s"][sidx]
-                if st["k"] != "assign" or st["l"]["p"]:
-                    continue
-                r_ = st["r"]
-                is_none = (r_["k"] == "aggregate" and r_.get("variant") == "None") or \
-                          (r_["k"] == "use" and r_["o"]["k"] == "const" and r_["o"]["c"].get("variant") == "None")
-                if is_none:
-                    on_false = any(ce[0] == "call" and ce[1] == hb and truth(inf) is False for (ce, inf, _b) in facts_at(ex, sb))
-                    if not on_false:
+                for st in bl_["s"]:
+                    if st["k"] != "assign" or st["l"]["l"] != local:
+                        continue
+                    r_ = st["r"]
+                    nn = (r_["k"] == "aggregate" and r_.get("variant") == "None") or (r_["k"] == "use" and r_["o"]["k"] == "const" and r_["o"]["c"].get("variant") == "None")
+                    out.append((b_, nn, st))
+            return out
+
+        res_local = s["l"]["l"]
+        over_field = set()
+        for b_, bl_ in enumerate(ex.blocks):
+            for st in bl_["s"]:
+                if st["k"] == "assign" and st["l"]["l"] == res_local and st["l"]["p"] and st["l"]["p"][-1]["k"] == "field" and st["l"]["p"][-1]["n"] == "process":
+                    r_ = st["r"]
+                    nn = (r_["k"] == "aggregate" and r_.get("variant") == "None") or (r_["k"] == "use" and r_["o"]["k"] == "const" and r_["o"]["c"].get("variant") == "None")
+                    if not nn:
+                        over_field.add(b_)
+
+        def check_local(local, depth=0):
+            ds = defs_of(local)
+            over = {b_ for b_, nn, st in ds if not nn} | over_field
+            for b_, nn, st in ds:
+                if nn:
+                    # a path on which has_process() answered true and this None survives to the end?
+                    caseA = any(tg in cfg.reachable(ex, b_, avoid=over - {b_}, unwind=False) and (cfg.reachable(ex, tg, avoid=over, unwind=False) & exits) for tg in true_tg)
+                    caseB = any(b_ in cfg.reachable(ex, tg, unwind=False) for tg in true_tg) and bool(cfg.reachable_after(ex, b_, avoid=over, unwind=False) & exits or b_ in exits)
+                    if caseA or caseB:
                         bad_none.append(st["sp"])
-                elif r_["k"] == "use" and r_["o"]["k"] in ("copy", "move") and not r_["o"]["p"]["p"]:
-                    none_sites(r_["o"]["p"]["l"], (sb, sidx), depth + 1)
+                elif depth < 4 and st["r"]["k"] == "use" and st["r"]["o"]["k"] in ("copy", "move") and not st["r"]["o"]["p"]["p"]:
+                    check_local(st["r"]["o"]["p"]["l"], depth + 1)
         op = s["r"]["ops"][fields.index("process")]
         if op["k"] in ("copy", "move") and not op["p"]["p"]:
-            none_sites(op["p"]["l"], (bb, si))
+            check_local(op["p"]["l"])
+        elif op["k"] == "const" and op["c"].get("variant") == "None":
+            # `Origin { process: None, .. }` filled in afterwards through `origin.process = Some(..)`
+            res_local = s["l"]["l"]
+            over = set()
+            for b_, bl_ in enumerate(ex.blocks):
+                for st in bl_["s"]:
+                    if st["k"] == "assign" and st["l"]["l"] == res_local and st["l"]["p"] and st["l"]["p"][-1]["k"] == "field" and st["l"]["p"][-1]["n"] == "process":
+                        r_ = st["r"]
+                        nn = (r_["k"] == "aggregate" and r_.get("variant") == "None") or (r_["k"] == "use" and r_["o"]["k"] == "const" and r_["o"]["c"].get("variant") == "None")
+                        if not nn:
+                            over.add(b_)
+            caseA = any(tg in cfg.reachable(ex, bb, avoid=over, unwind=False) and (cfg.reachable(ex, tg, avoid=over, unwind=False) & exits) for tg in true_tg)
+            caseB = any(bb in cfg.reachable(ex, tg, unwind=False) for tg in true_tg) and bool(cfg.reachable_after(ex, bb, avoid=over, unwind=False) & exits)
+            if caseA or caseB:
+                bad_none.append(s["sp"])
         ctx.check(not bad_none, rid, "process-none-only-without-process", "Origin.process is None only on the branch where has_process() is false", s["sp"],
                   {"none_assigned_although_has_process": sorted(set(bad_none))})
     # extern agreement
